@@ -154,6 +154,23 @@ func expiryOp(r *relayInst, fs []string) string {
 						}()
 					}
 				}
+				if beh == "busyrx" {
+					// traffic TOWARDS the expiring connection (its writePump keeps delivering), also after E
+					peer, _, ok = r.openAt(topic, "bp"+strconv.Itoa(i), time.Now().Unix()+600, []string{"read", "write"})
+					if ok {
+						go func() {
+							for {
+								select {
+								case <-stopTraffic:
+									return
+								default:
+								}
+								peer.WriteMessage(websocket.BinaryMessage, []byte("tock"))
+								time.Sleep(50 * time.Millisecond)
+							}
+						}()
+					}
+				}
 				var closedAt int64
 				if beh == "stall" {
 					// never read: the close can only be seen by a failing write; poll with pings
